@@ -82,20 +82,9 @@ func main() {
 	env := &harness.Env{Tier: *tier, Variant: *variant}
 
 	replayRaceLog = *raceLog
-	switch {
-	case *replay != "":
-		os.Exit(doReplay(s, env, *replay))
-	case *minimise != "":
-		os.Exit(doMinimise(s, env, *minimise, *out))
-	}
-
 	rep := &Report{Prop: *prop, Worker: *worker, Seed: *seed, Variant: *variant, RaceLane: kern.RaceLane, Gomaxprocs: runtime.GOMAXPROCS(0),
 		Faults: map[string]int{}, Probes: map[string]int{}, SiteRuns: map[string]int{}}
 	start := time.Now()
-	sigs := map[uint64]bool{}
-	classes := map[string]bool{}
-	var det uint64 = 1469598103934665603
-
 	// watchdog: a single evaluation that neither finishes nor enters the
 	// kernel is a hang of the code under test (or harness trouble).
 	var cur atomic.Pointer[harness.Failure]
@@ -103,8 +92,27 @@ func main() {
 	kern.RunHook = func() { tick.Add(1) }
 	go func() {
 		last, lastAt := int64(-1), time.Now()
+		memTick := 0
 		for {
-			time.Sleep(200 * time.Millisecond)
+			time.Sleep(50 * time.Millisecond)
+			// a run whose memory grows without bound does not terminate either
+			var ms runtime.MemStats
+			if memTick++; memTick%4 == 0 {
+				runtime.ReadMemStats(&ms)
+			}
+			if ms.HeapAlloc > 3<<30 {
+				if f := cur.Load(); f != nil {
+					f.V = harness.Violation{Oracle: "terminates", Class: "hang", Message: fmt.Sprintf("a simulated run allocated more than 3 GiB without finishing (memory grows without bound)")}
+					rep.Hang = f
+				}
+				if *replay != "" || *minimise != "" {
+					fmt.Printf("REPLAY: violation property=%s oracle=terminates class=hang\na simulated run allocated more than 3 GiB without finishing (memory grows without bound)\n", *prop)
+					os.Exit(1)
+				}
+				rep.WallS = time.Since(start).Seconds()
+				writeReport(rep, *out)
+				os.Exit(4)
+			}
 			t := tick.Load()
 			if t != last {
 				last, lastAt = t, time.Now()
@@ -115,12 +123,28 @@ func main() {
 					f.V = harness.Violation{Oracle: "terminates", Class: "hang", Message: fmt.Sprintf("a simulated run did not finish within %.0f s of wall-clock time without entering the kernel", *evalTimeout)}
 					rep.Hang = f
 				}
+				if *replay != "" || *minimise != "" {
+					fmt.Printf("REPLAY: violation property=%s oracle=terminates class=hang\na simulated run did not finish within %.0f s\n", *prop, *evalTimeout)
+					os.Exit(1)
+				}
 				rep.WallS = time.Since(start).Seconds()
 				writeReport(rep, *out)
 				os.Exit(4)
 			}
 		}
 	}()
+
+
+	switch {
+	case *replay != "":
+		os.Exit(doReplay(s, env, *replay))
+	case *minimise != "":
+		os.Exit(doMinimise(s, env, *minimise, *out))
+	}
+
+	sigs := map[uint64]bool{}
+	classes := map[string]bool{}
+	var det uint64 = 1469598103934665603
 
 	var detDump *os.File
 	if p := os.Getenv("VERIF_DET_DUMP"); p != "" {
@@ -351,6 +375,10 @@ func doReplay(s harness.Scenario, env *harness.Env, path string) int {
 	env.Variant = f.Variant
 	env.KeepTrace = true
 	c := harness.NewReplay(f.Choices)
+	if len(f.Choices) == 0 && f.Seed != 0 {
+		// an evaluation that never finished has no recorded vector: regenerate it from its seed
+		c = harness.NewRandom(f.Seed)
+	}
 	o := s.Eval(c, env)
 	if o.V == nil && replayRaceLog != "" {
 		o.V = newRaceReports(replayRaceLog)
